@@ -1,5 +1,6 @@
 import SE.Proofs.SafetyGather
 import SE.Proofs.SuffixFree
+import SE.Proofs.HelpUniform
 import SE.Spec.FloatLaws
 /-
 C03 — Every scrape succeeds and is a consistent, parseable exposition (partial by necessity).
@@ -21,9 +22,19 @@ family, agreement with pre-registered families, no `_sum/_count/_bucket` suffix 
   families never collide by suffix (the repaired companion-name checks of `getOrCreate`, SE/Props/C08.lean);
   `scrape_fails_only_by_help`: if moreover nothing is pre-registered, the scrape succeeds iff every live
   family has one help string;
-* it is still **not** an invariant: `gather_ok_invariant_statement` is refuted by two concrete histories
-  (`help_mismatch`, `preregistered_name_collision`); the third class that used to be open — a summary `x`
-  next to a summary `x_sum` — is closed: `observer_companion_now_refused`.
+* `help_uniform_history`, `help_consistent_history`: over every history from a registry without statsd metrics
+  all vectors of one metric name carry the same help string (the repaired registry remembers, per metric name,
+  the help string of the first vector it created and uses it for every later vector: `helpFor`), so every
+  family has one help string — whatever the mapping rules say, and across reloads;
+* **`scrape_succeeds_without_preregistered`**: after EVERY history from an empty registry without
+  pre-registered families the scrape succeeds. The history that used to break it (two rules giving one metric
+  name two help strings) now scrapes fine, the second vector carrying the first rule's help:
+  `help_mismatch_repaired`;
+* with pre-registered families it is still **not** an invariant: `gather_ok_invariant_statement` is refuted
+  by `preregistered_name_collision` (`gather_ok_not_invariant`) — the only open class; restricted to
+  `p.reg.pre = []` the statement holds (`gather_ok_invariant_without_preregistered`). The two classes that
+  used to be open besides it are closed: a summary `x` next to a summary `x_sum`
+  (`observer_companion_now_refused`) and the help mismatch (`help_mismatch_repaired`).
 
 Not covered (outside the models): the text encoder itself (escaping of help and label values, float
 formatting), and label-name *syntax* for tag keys (they are `specEscape`d in the line parser; see C15).
@@ -206,13 +217,47 @@ theorem scrape_fails_only_by_help (rx : Rx) (p p' : Pipe V) (ops : List (PipeOp 
     (SuffixFree_runOps rx ops (wf_suffixFree_of_no_metrics h0).1 (wf_suffixFree_of_no_metrics h0).2 h).2
     (by rw [pre_runOps rx ops h, hpre])
 
-/-! ## `gatherOk` is not an invariant -/
+/-! ## one help string per family -/
+
+/-- **All vectors of one metric name carry the same help string.** After every history (event batches, sweeps,
+    clock changes, reloads of the mapping configuration, in any order) that starts without statsd metrics —
+    whatever is pre-registered: the registry creates every later vector of a name with the help string of the
+    name's first vector (`helpFor`), and never removes a vector. -/
+theorem help_uniform_history (rx : Rx) (p p' : Pipe V) (ops : List (PipeOp V)) (h0 : p.reg.metrics = [])
+    (h : runOps rx p ops = some (.ok p')) : HelpUniform p'.reg :=
+  (HelpUniform_runOps rx ops (wf_helpUniform_of_no_metrics h0).1 (wf_helpUniform_of_no_metrics h0).2 h).2
+
+/-- **Every family has one help string**: the first conjunct of `Reg.gatherOk`, after every history from a
+    registry without statsd metrics. -/
+theorem help_consistent_history (rx : Rx) (p p' : Pipe V) (ops : List (PipeOp V)) (h0 : p.reg.metrics = [])
+    (h : runOps rx p ops = some (.ok p')) :
+    (p'.reg.metrics.filter (!·.series.isEmpty)).all helpConsistent = true :=
+  live_helpConsistent_of_helpUniform (help_uniform_history rx p p' ops h0 h)
+
+/-- **The scrape succeeds after every history** from an empty registry without pre-registered families: no
+    help mismatch (`help_consistent_history`), no suffix collision (`statsd_families_suffix_free`), nothing to
+    agree with. No assumption on the configuration(s), the events, the clock or the order of operations. -/
+theorem scrape_succeeds_without_preregistered (rx : Rx) (p p' : Pipe V) (ops : List (PipeOp V))
+    (h0 : p.reg.metrics = []) (hpre : p.reg.pre = []) (h : runOps rx p ops = some (.ok p')) :
+    p'.reg.gatherOk = true := by
+  rw [scrape_fails_only_by_help rx p p' ops h0 hpre h]
+  exact help_consistent_history rx p p' ops h0 h
+
+/-! ## `gatherOk` is not an invariant when families are pre-registered -/
 
 /-- (FALSE on the current code) from a registry without statsd metrics whose pre-registered families scrape
     fine, the scrape succeeds after every history -/
 def gather_ok_invariant_statement : Prop :=
   ∀ (V : Type) [NumOps V] (rx : Rx) (p p' : Pipe V) (ops : List (PipeOp V)),
     p.reg.metrics = [] → p.reg.gatherOk = true → runOps rx p ops = some (.ok p') → p'.reg.gatherOk = true
+
+/-- the positive counterpart: restricted to registries without pre-registered families the statement holds
+    (the hypothesis `p.reg.gatherOk = true` is not even needed: `scrape_succeeds_without_preregistered`) -/
+theorem gather_ok_invariant_without_preregistered :
+    ∀ (V : Type) [NumOps V] (rx : Rx) (p p' : Pipe V) (ops : List (PipeOp V)),
+      p.reg.metrics = [] → p.reg.pre = [] → p.reg.gatherOk = true → runOps rx p ops = some (.ok p') →
+      p'.reg.gatherOk = true :=
+  fun _ _ rx p p' ops h0 hpre _ h => scrape_succeeds_without_preregistered rx p p' ops h0 hpre h
 
 section counterexamples
 attribute [local instance] toyNumOps
@@ -253,14 +298,24 @@ def rawTwoHelps : RawConfig Int :=
 
 example : (load (fun _ => true) [1, 2] [] rawTwoHelps).toBool = true := by with_unfolding_all decide
 
-/-- **help mismatch**: `a:1|c` creates `x{}` (vector without labels, help "1"); `b:1|c|#k:v` creates `x{k="v"}`
-    in a second vector of the same family with help "2". Both events are applied; the scrape was fine after the
-    first and fails after the second ("has help … but should have …"). -/
-theorem help_mismatch :
+/-- (applied events, and per metric entry its name and the (label names, help) of its vectors) after the history;
+    `(0, [])` if the history does not run to the end -/
+private def vecsAfter (p : Pipe Int) (ops : List (PipeOp Int)) : Nat × List (Bytes × List (List Bytes × Bytes)) :=
+  match runOps noRx p ops with
+  | some (.ok p') => (p'.counts.applied, p'.reg.metrics.map fun m => (m.name, m.vecs.map fun v => (v.names, v.help)))
+  | _ => (0, [])
+
+/-- **help mismatch repaired** (this history used to break the scrape): `a:1|c` creates `x{}` (vector without
+    labels, help "1", the first rule's); `b:1|c|#k:v` creates `x{k="v"}` in a second vector of the same family —
+    the second rule says help "2", but the registry creates the vector with the help string of the family's
+    first vector, "1". Both events are applied and the scrape succeeds after the first and after the second. -/
+theorem help_mismatch_repaired :
     scrapeAfter { mapper := MState.fresh (cfgOf rawTwoHelps) } [.line [] [ctr [97]]] = some true ∧
     scrapeAfter { mapper := MState.fresh (cfgOf rawTwoHelps) }
-      [.line [] [ctr [97]], .line [([107], [118])] [ctr [98]]] = some false := by
-  constructor <;> with_unfolding_all decide
+      [.line [] [ctr [97]], .line [([107], [118])] [ctr [98]]] = some true ∧
+    vecsAfter { mapper := MState.fresh (cfgOf rawTwoHelps) }
+      [.line [] [ctr [97]], .line [([107], [118])] [ctr [98]]] = (2, [(nameX, [([], [49]), ([[107]], [49])])]) := by
+  refine ⟨?_, ?_, ?_⟩ <;> with_unfolding_all decide
 
 /-- **observer companion now refused** (this history used to break the scrape): without rules, observers
     being summaries: the timer `x` creates the summary family `x` (which exposes `x_sum`, `x_count`); the timer
@@ -280,27 +335,39 @@ theorem preregistered_name_collision :
       [.line [] [ctr nameX]] = some false := by
   constructor <;> with_unfolding_all decide
 
-/-- **`gatherOk` is not an invariant of histories** (each of the two histories refutes it; the first is used) -/
+/-- **`gatherOk` is not an invariant of histories** — by the pre-registered name collision, the one class that
+    is still open -/
 theorem gather_ok_not_invariant : ¬ gather_ok_invariant_statement := by
   intro hst
-  obtain ⟨p', hrun, hg⟩ := scrapeAfter_spec help_mismatch.2
-  have := hst Int noRx _ p' _ rfl (by with_unfolding_all decide) hrun
+  obtain ⟨p', hrun, hg⟩ := scrapeAfter_spec preregistered_name_collision.2
+  have := hst Int noRx _ p' _ rfl preregistered_name_collision.1 hrun
   rw [hg] at this; cases this
 
-/-- both remaining classes refute it, independently of each other: the help mismatch needs nothing
-    pre-registered (but two rules), the pre-registered name collision needs no rule -/
+/-- the refutation needs a pre-registered family and nothing else: no mapping rule at all. (The second refutation
+    that used to stand here — two rules, nothing pre-registered — is gone: without pre-registered families the
+    statement holds, `gather_ok_invariant_without_preregistered`.) -/
 theorem gather_ok_not_invariant' :
-    (∃ (p p' : Pipe Int) (ops : List (PipeOp Int)), p.reg.metrics = [] ∧ p.reg.gatherOk = true ∧
-      runOps noRx p ops = some (.ok p') ∧ p'.reg.gatherOk = false ∧ p.reg.pre = []) ∧
-    (∃ (p p' : Pipe Int) (ops : List (PipeOp Int)), p.reg.metrics = [] ∧ p.reg.gatherOk = true ∧
-      runOps noRx p ops = some (.ok p') ∧ p'.reg.gatherOk = false ∧ p.reg.pre ≠ [] ∧ p.mapper.cfg.rules = []) := by
-  constructor
-  · obtain ⟨p', hrun, hg⟩ := scrapeAfter_spec help_mismatch.2
-    exact ⟨_, p', _, rfl, by with_unfolding_all decide, hrun, hg, rfl⟩
-  · obtain ⟨p', hrun, hg⟩ := scrapeAfter_spec preregistered_name_collision.2
-    exact ⟨_, p', _, rfl, preregistered_name_collision.1, hrun, hg, by simp, rfl⟩
+    ∃ (p p' : Pipe Int) (ops : List (PipeOp Int)), p.reg.metrics = [] ∧ p.reg.gatherOk = true ∧
+      runOps noRx p ops = some (.ok p') ∧ p'.reg.gatherOk = false ∧ p.reg.pre ≠ [] ∧ p.mapper.cfg.rules = [] := by
+  obtain ⟨p', hrun, hg⟩ := scrapeAfter_spec preregistered_name_collision.2
+  exact ⟨_, p', _, rfl, preregistered_name_collision.1, hrun, hg, by simp, rfl⟩
+
+/-- … and no refutation without one exists -/
+theorem no_refutation_without_preregistered :
+    ¬ ∃ (p p' : Pipe Int) (ops : List (PipeOp Int)), p.reg.metrics = [] ∧ p.reg.gatherOk = true ∧
+      runOps noRx p ops = some (.ok p') ∧ p'.reg.gatherOk = false ∧ p.reg.pre = [] := by
+  rintro ⟨p, p', ops, h0, _, hrun, hg, hpre⟩
+  rw [scrape_succeeds_without_preregistered noRx p p' ops h0 hpre hrun] at hg
+  cases hg
 
 /-! ### Non-vacuity of the positive facts -/
+
+/-- `scrape_succeeds_without_preregistered` is about something: its hypotheses hold of the two-help history, which
+    runs to the end and leaves a live family with two vectors -/
+example : ∃ p', runOps noRx { mapper := MState.fresh (cfgOf rawTwoHelps) }
+      [.line [] [ctr [97]], .line [([107], [118])] [ctr [98]]] = some (.ok p') ∧ p'.reg.gatherOk = true := by
+  obtain ⟨p', hrun, _⟩ := scrapeAfter_spec help_mismatch_repaired.2.1
+  exact ⟨p', hrun, scrape_succeeds_without_preregistered noRx _ p' _ rfl rfl hrun⟩
 
 /-- a history in which the scrape stays healthy: two series of one vector, a sweep, a hit -/
 example : scrapeAfter { mapper := MState.fresh emptyCfg }
